@@ -507,9 +507,10 @@ class Dynamic(Parameter):
             gen._Dynamic_time_fn = obj._Dynamic_time_fn
 
         gen._Dynamic_last = None
-        # Would have usede None for this, but can't compare a fixedpoint
-        # number with None (e.g. 1>None but FixedPoint(1)>None can't be done)
-        gen._Dynamic_time = -1
+        # No value produced yet: must differ from every possible time
+        # (only ever compared with != in _produce_value), so that a
+        # first read at time -1 generates a value too.
+        gen._Dynamic_time = None
 
         gen._saved_Dynamic_last = []
         gen._saved_Dynamic_time = []
